@@ -1,5 +1,5 @@
 SPECIFICATION Spec
-CONSTANTS Kinds = {"plain", "mixed", "enc"}
+CONSTANTS Kinds = {"plain", "mixed", "enc", "root"}
           MixedServerSet = {"none", "rel"}
           MixedCoreServers = {"none"}
           MixedMethKeys = {"G", "GP"}
